@@ -16,6 +16,7 @@ import (
 	"os"
 	"path/filepath"
 	"runtime"
+	"runtime/debug"
 	"sort"
 	"strconv"
 	"sync"
@@ -43,6 +44,7 @@ var w1RunCounter int
 type w1FaultRates struct { // per mille, per message / per insert
 	dropReq, dropResp, delay, dup   int
 	chFail, chStall, chLost, chSlow int
+	corrupt                         int // net_corrupt_request: damaged bucket payload of a SendSourceBucket3 request
 }
 
 type w1Config struct {
@@ -54,6 +56,7 @@ type w1Config struct {
 	saveImm       bool
 	receiveBudget bool
 	keys          int
+	layouts       []w1Layout // tag layouts of the shared keys; [0] is the plain one
 	faulty        bool
 	faults        w1FaultRates
 	partitions    bool
@@ -139,9 +142,10 @@ const (
 	w1RecAck
 	w1RecCH
 	w1RecPanic
+	w1RecCorrupt
 )
 
-var w1RecNames = [...]string{"send", "noconn", "netdrop", "deliver", "response", "outcome", "clickhouse", "panic"}
+var w1RecNames = [...]string{"send", "noconn", "netdrop", "deliver", "response", "outcome", "clickhouse", "panic", "corrupt"}
 
 type w1Rec struct {
 	typ int
@@ -153,6 +157,7 @@ type w1Rec struct {
 	spare                                  bool
 	attempt                                int
 	dup                                    bool
+	corrupt                                bool // simulator fact: this request's bucket payload was damaged before delivery
 
 	accepted                   bool
 	where                      string
@@ -161,6 +166,7 @@ type w1Rec struct {
 	discard    bool
 	hasMarker  bool
 	warn, note string
+	stack      string // panic records: stack of the panicking goroutine (never logged: not replay-stable)
 
 	fate    int
 	stored  bool
@@ -187,8 +193,9 @@ func (w *w1World) guard(where string) {
 		if len(msg) > 200 {
 			msg = msg[:200]
 		}
+		stack := string(debug.Stack()) // taken inside the deferred call: includes the panicking frames
 		w.mu.Lock()
-		w.recLocked(w1Rec{typ: w1RecPanic, where: where, note: msg})
+		w.recLocked(w1Rec{typ: w1RecPanic, where: where, note: msg, stack: stack})
 		w.mu.Unlock()
 	}
 }
@@ -259,6 +266,19 @@ func w1Run(t *testing.T, r *verifsim.Run) {
 	cfg.saveImm = c.Intn(2, "save_immediately") == 1
 	cfg.receiveBudget = false // per-metric receive budgets decay while responses are missing and then bind on the agent (outside C03's premise)
 	cfg.keys = 1 + c.Intn(4, "keys")
+	// 2-3 extra tag layouts for the shared keys, so that keys of different serialized length (string tag
+	// values of different lengths, a second tag) travel in one request
+	// (one with a short string value, one with a long one, in a part of the runs a third of any shape)
+	layoutIdx := []int{0, 1 + c.Intn(w1LayoutShort, "layout_short"), 1 + w1LayoutShort + c.Intn(w1LayoutLong, "layout_long")}
+	if c.Intn(2, "third_layout") == 1 {
+		idx := 1 + c.Intn(len(w1LayoutCatalogue)-1, "layout_any")
+		if idx != layoutIdx[1] && idx != layoutIdx[2] {
+			layoutIdx = append(layoutIdx, idx)
+		}
+	}
+	for _, idx := range layoutIdx {
+		cfg.layouts = append(cfg.layouts, w1LayoutCatalogue[idx])
+	}
 	cfg.faultsStop = cfg.runLen
 	if cfg.faulty {
 		rate := func(label string) int {
@@ -269,6 +289,9 @@ func w1Run(t *testing.T, r *verifsim.Run) {
 		}
 		cfg.faults = w1FaultRates{dropReq: rate("drop_req"), dropResp: rate("drop_resp"), delay: rate("delay"), dup: rate("dup"),
 			chFail: rate("ch_500"), chStall: rate("ch_stall"), chLost: rate("ch_lost"), chSlow: rate("ch_slow")}
+		if c.Intn(2, "corrupt_req_on") == 1 { // low rate: every hit makes one aggregator reject one second for good
+			cfg.faults.corrupt = w1Pick(c, "corrupt_req_rate", 5, 15, 40)
+		}
 		cfg.partitions = c.Intn(2, "partitions") == 1
 		cfg.repCrashes = c.Intn(2, "replica_crashes") == 1
 		cfg.agentCrashes = c.Intn(2, "agent_crashes") == 1
@@ -285,6 +308,7 @@ func w1Run(t *testing.T, r *verifsim.Run) {
 	r.Config["agents"], r.Config["run_len_s"], r.Config["historic_window_s"] = cfg.agents, cfg.runLen, cfg.window
 	r.Config["short_window"], r.Config["inserters"], r.Config["save_immediately"] = cfg.shortWindow, cfg.inserters, cfg.saveImm
 	r.Config["receive_budget"], r.Config["keys"], r.Config["faulty"] = cfg.receiveBudget, cfg.keys, cfg.faulty
+	r.Config["key_layouts"] = fmt.Sprint(layoutIdx)
 	if cfg.faulty {
 		r.Config["fault_rates_permille"] = fmt.Sprintf("%+v", cfg.faults)
 		r.Config["partitions"], r.Config["replica_crashes"], r.Config["agent_crashes"], r.Config["faults_stop_s"] = cfg.partitions, cfg.repCrashes, cfg.agentCrashes, cfg.faultsStop
@@ -487,12 +511,60 @@ func (w *w1World) applyWorkload() {
 	}
 }
 
+// w1Layout: the tags an event of a shared key carries, by tag index ("" = absent). Tags 1 and 4 are
+// raw int tags, 2 and 3 string tags (nothing is mapped in this world, so they travel and are stored
+// as strings).
+type w1Layout struct{ vals [5]string }
+
+var w1LayoutCatalogue = []w1Layout{
+	{vals: [5]string{1: "1"}}, // the plain layout, always present
+	// short string values
+	{vals: [5]string{1: "1", 2: "ab"}},
+	{vals: [5]string{1: "2", 2: "ab"}},
+	{vals: [5]string{1: "7", 2: "x", 3: "second-string-tag"}},
+	{vals: [5]string{1: "1", 2: "abc", 4: "65793"}},
+	{vals: [5]string{2: "ab", 3: "cd"}},
+	// long string values
+	{vals: [5]string{1: "1", 2: "value-longer-than-the-others-0123456789"}},
+	{vals: [5]string{1: "9", 3: "another-rather-long-string-tag-value-abcdefghijklmnopqrstuvwxyz"}},
+	// others
+	{vals: [5]string{1: "300", 4: "70000"}},
+	{vals: [5]string{3: "q"}},
+}
+
+const w1LayoutShort, w1LayoutLong = 5, 2 // sizes of the two groups after the plain layout
+
+// keyString: the (time, metric, tags, string-top) key of the rows this layout produces, in the
+// notation of w1KeyString.
+func (l w1Layout) keyString(ts uint32, metric int32) string {
+	tags := make([]int32, len(l.vals))
+	stags := make([][]byte, len(l.vals))
+	for i, v := range l.vals {
+		switch {
+		case v == "":
+		case i == 1 || i == 4:
+			n, err := strconv.Atoi(v)
+			if err != nil {
+				panic(err)
+			}
+			tags[i] = int32(n)
+		default:
+			stags[i] = []byte(v)
+		}
+	}
+	return w1KeyString(ts, metric, tags, stags)
+}
+
 func (w *w1World) applySecond(inst *w1Inst, T uint32) {
 	a := inst.agent
 	var scratch []byte
-	apply := func(metric int32, tagVal int, fill func(m *tlstatshouse.MetricBytes)) {
+	apply := func(metric int32, layout w1Layout, fill func(m *tlstatshouse.MetricBytes)) {
 		m := tlstatshouse.MetricBytes{Name: []byte(w1MetricNames[metric])}
-		m.Tags = []tl.DictFieldStringStringBytes{{Key: []byte("1"), Value: []byte(strconv.Itoa(tagVal))}}
+		for i, v := range layout.vals {
+			if v != "" {
+				m.Tags = append(m.Tags, tl.DictFieldStringStringBytes{Key: []byte(strconv.Itoa(i)), Value: []byte(v)})
+			}
+		}
 		m.SetTs(T)
 		fill(&m)
 		var h data_model.MappedMetricHeader
@@ -508,39 +580,58 @@ func (w *w1World) applySecond(inst *w1Inst, T uint32) {
 		}
 		inst.ag.ApplyMetric(&m, &h, &scratch)
 	}
-	apply(w1MetricMarker, a+1, func(m *tlstatshouse.MetricBytes) { m.SetCounter(1) })
+	apply(w1MetricMarker, w1Layout{vals: [5]string{1: strconv.Itoa(a + 1)}}, func(m *tlstatshouse.MetricBytes) { m.SetCounter(1) })
 	w.noteMarkerGen(a, T, inst.gen)
-	v := func(k int, i int, n uint64) uint64 { return w.c.Keyed(n, 7001, uint64(a), uint64(T), uint64(k), uint64(i)) }
+	// which (key kind, layout) combinations this agent reports in this second, and in which order the
+	// events arrive: both keyed by (agent, second), so agents differ from each other and seconds differ
+	type combo struct{ k, l int }
+	var combos []combo
 	for k := 0; k < w.cfg.keys; k++ {
-		if v(k, 100, 4) == 0 { // a quarter of (agent, second, key) combinations stay silent
-			continue
+		for l := range w.cfg.layouts {
+			silent := w.c.Keyed(4, 7001, uint64(a), uint64(T), uint64(k), 100, uint64(l)) == 0 // a quarter stays silent
+			if l != 0 {
+				silent = w.c.Keyed(2, 7001, uint64(a), uint64(T), uint64(k), 100, uint64(l)) == 0 // extra layouts: half
+			}
+			if !silent {
+				combos = append(combos, combo{k, l})
+			}
+		}
+	}
+	for i := len(combos) - 1; i > 0; i-- {
+		j := int(w.c.Keyed(uint64(i+1), 7002, uint64(a), uint64(T), uint64(i)))
+		combos[i], combos[j] = combos[j], combos[i]
+	}
+	for _, cb := range combos {
+		k, layout := cb.k, w.cfg.layouts[cb.l]
+		v := func(i int, n uint64) uint64 {
+			return w.c.Keyed(n, 7001, uint64(a), uint64(T), uint64(k), uint64(i), uint64(cb.l))
 		}
 		switch k {
 		case 0:
-			apply(w1MetricCnt, 1, func(m *tlstatshouse.MetricBytes) { m.SetCounter(float64(1 + v(k, 0, 5))) })
+			apply(w1MetricCnt, layout, func(m *tlstatshouse.MetricBytes) { m.SetCounter(float64(1 + v(0, 5))) })
 		case 1:
-			apply(w1MetricVal, 1, func(m *tlstatshouse.MetricBytes) {
-				n := int(1 + v(k, 0, 3))
+			apply(w1MetricVal, layout, func(m *tlstatshouse.MetricBytes) {
+				n := int(1 + v(0, 3))
 				var vals []float64
 				for i := 0; i < n; i++ {
-					vals = append(vals, float64(v(k, 1+i, 100)))
+					vals = append(vals, float64(v(1+i, 100)))
 				}
 				m.SetValue(vals)
 			})
 		case 2:
 			var vals []int64
-			n := int(1 + v(k, 0, 5))
+			n := int(1 + v(0, 5))
 			for i := 0; i < n; i++ {
-				vals = append(vals, int64(1000+v(k, 1+i, 40)))
+				vals = append(vals, int64(1000+v(1+i, 40)))
 			}
-			apply(w1MetricUniq, 1, func(m *tlstatshouse.MetricBytes) { m.SetUnique(vals) })
-			w.or.noteUnique(a, T, vals)
+			apply(w1MetricUniq, layout, func(m *tlstatshouse.MetricBytes) { m.SetUnique(vals) })
+			w.or.noteUnique(a, T, layout.keyString(T, w1MetricUniq), vals)
 		case 3:
-			apply(w1MetricPct, 1, func(m *tlstatshouse.MetricBytes) {
-				n := int(1 + v(k, 0, 3))
+			apply(w1MetricPct, layout, func(m *tlstatshouse.MetricBytes) {
+				n := int(1 + v(0, 3))
 				var vals []float64
 				for i := 0; i < n; i++ {
-					vals = append(vals, float64(v(k, 1+i, 50)))
+					vals = append(vals, float64(v(1+i, 50)))
 				}
 				m.SetValue(vals)
 			})
